@@ -51,6 +51,7 @@ Init0 ==
     seqLoose |-> FALSE,      \* unsettled AND the gateway handed out the same channel number again: the two
                              \* epochs cannot be told apart on the wire until a Send called after the switch transmits
     park |-> << >>,          \* own-channel acks taken in while no exchange was open: [seq, st, t]
+    oldPark |-> << >>,       \* what was parked under the previous channel when the epoch switched with Sends still queued
     called |-> {},           \* pids with SendCall and no SendRet
     senders |-> {},          \* application goroutines seen calling Send
     afterClose |-> {},       \* pids whose Send was called after a Close had returned
@@ -125,6 +126,8 @@ StartEpoch(o, ch, t) ==
             !.hbLate = (Cardinality(o.called \ o.everTx) + (IF o.ex.fate = "open" THEN 1 ELSE 0)) * o.T,
             \* acknowledgements parked under the old channel do not carry the new connection's channel
             !.park = IF ch = o.ch THEN [k \in 1..Len(o.park) |-> [o.park[k] EXCEPT !.m = TRUE]] ELSE << >>,
+            \* ... but a Send queued before the switch still goes out under the old channel and may take one of them
+            !.oldPark = IF ch # o.ch /\ (o.called \ o.everTx # {}) THEN o.park ELSE << >>,
             !.unsettled = (o.called \ o.everTx # {}), !.preEpoch = o.called \ o.everTx,
             !.oldCh = o.ch, !.oldNext = o.sndNext,
             !.seqLoose = (o.called \ o.everTx # {} /\ ch = o.ch),
@@ -259,7 +262,9 @@ OutTunnelReq(o, e) ==
                           !.seqLoose = o.seqLoose /\ e.pid \in o.preEpoch]
      IN IF o.phase = "down" THEN o6
         ELSE IF oldEp   \* an old-epoch request may still pick up an acknowledgement parked before the switch
-        THEN IF \E i \in 1..Len(o6.park) : o6.park[i].seq = e.seq THEN [o6 EXCEPT !.ex.fate = "amb"] ELSE o6
+        THEN IF \E i \in 1..Len(o6.park) : o6.park[i].seq = e.seq THEN [o6 EXCEPT !.ex.fate = "amb"]
+             ELSE IF \E i \in 1..Len(o6.oldPark) : o6.oldPark[i].seq = e.seq /\ t - o6.oldPark[i].t <= o.R + USlk(o) THEN [o6 EXCEPT !.ex.fate = "amb"]
+             ELSE o6
         ELSE ConsumeParked(o6, e.seq)
 
 InTunnelRes0(o, e) ==
@@ -539,7 +544,7 @@ Step0(o, e) ==
     [] e.k = "End"       -> FlagIf(oc, e.a > 0, "C10.NoLeak")
     [] e.k = "BubbleAbort" -> Flag(oc, "C10.NoLeak")
     [] e.k = "Crash"     -> Flag(oc, "C10.NoPanic")
-    [] e.k = "Race"      -> Flag(oc, "C10.NoRace")
+    [] e.k = "Race"      -> Flag(oc, IF e.s = "chan-close-send" THEN "C10.F1.NoRace" ELSE "C10.NoRace")
     [] e.k = "Hang"      -> Flag(oc, "C10.NoHang")
     [] OTHER -> oc
 
